@@ -225,10 +225,20 @@ pub fn contractclient(attr: TokenStream, item: TokenStream) -> TokenStream {
                     #sdk::model::unhandled_call(#what)
                 }
             });
+            let try_fname = format_ident!("try_{}", fname);
             methods.push(quote! {
                 #[allow(clippy::too_many_arguments)]
                 pub fn #fname(&self, #(#params),*) -> #ret {
                     #hook(&self.env, &self.address, #(#pnames),*)
+                }
+                /// `try_` variant: the callee may fail for reasons the caller cannot see (a symbolic choice);
+                /// the failure is returned instead of trapping, as on the real host.
+                #[allow(clippy::too_many_arguments, clippy::type_complexity)]
+                pub fn #try_fname(&self, #(#params),*) -> Result<Result<#ret, #sdk::ConversionError>, Result<#sdk::Error, #sdk::InvokeError>> {
+                    if #sdk::model::nondet_callee_failure() {
+                        return Err(Ok(#sdk::Error::host(99)));
+                    }
+                    Ok(Ok(#hook(&self.env, &self.address, #(#pnames),*)))
                 }
             });
         }
